@@ -150,13 +150,13 @@ def check_selection_helpers(run, E, pid='C10', fns=('bool_index', 'num_index'), 
         yield ck
 
 
-def check_subset(run, E):
+def check_subset(run, E, pid='C10'):
     """RDMs.subset(by, value): exactly the RDMs whose descriptor is a requested value, each once, in source order; the
     dissimilarity rows and EVERY rdm descriptor gathered by that same index sequence; other fields are the source's"""
     from contracts.C09 import _self_rdms
     E.inline |= {DU + 'bool_index', DU + 'num_index', 'rsatoolbox.util.data_utils.extract_dict'}
     for case in ('scalar', 'list'):
-        ck = FuncCheck(E, run, 'C10', 'rsatoolbox.rdm.rdms.RDMs.subset', f'value={case}')
+        ck = FuncCheck(E, run, pid, 'rsatoolbox.rdm.rdms.RDMs.subset', f'value={case}')
         hold = {}
 
         def mk(E, case=case):
